@@ -212,7 +212,13 @@ func H10_sessions() {
 			mi = 0
 		}
 		clean := vrtBool("clean")
-		c, ack := b.connect(vrtConnectPkt([]byte{ids[which]}, clean))
+		cp := vrtConnectPkt([]byte{ids[which]}, clean)
+		if clean && vrtBound("N10will", 1) == 1 {
+			// clean sessions carry a will with a zero-length payload (legal in 3.1.1)
+			cp.CFlags |= 4
+			cp.WillTopic, cp.WillMsg = []byte("w"), nil
+		}
+		c, ack := b.connect(cp)
 		sp := !clean && present[mi]
 		vrtAssert("C10.session_present_flag", vrtIsConnack(ack, sp, 0))
 		sub := false
@@ -231,7 +237,8 @@ func H10_sessions() {
 		if sub {
 			vrtReach("C10.restored")
 		}
-		switch vrtChoice("action", 4) {
+		action := vrtChoice("action", 4)
+		switch action {
 		case 1, 3:
 			q = vrtByte("q")
 			vrtAssume(q <= 1)
@@ -243,7 +250,7 @@ func H10_sessions() {
 			vrtAssert("C10.harness_unsuback", vrtBytesEq(ans, []byte{0xB0, 2, 0, 9}))
 			sub = false
 		}
-		if vrtConcretize(vrtIteInt(sub, 1, 0)) == 1 && vrtBool("resubscribe_other_qos") {
+		if action == 3 {
 			// the same filter again, with another QoS: the later one counts
 			q = 1 - q
 			ans := vrtExchange(c, &specPkt{Typ: specSUBSCRIBE, ID: 10, Topics: [][]byte{[]byte("t")}, QoS: []byte{q}})
